@@ -2157,3 +2157,133 @@ class DiscoveryFamily(Family):
     def bounded_source(cls, prog, fname):
         return 'calculator', cls.source(), ('all token sequences up to length 5 over {a,A,b,f,(,),+,",",\'a\',NOT,1} and all template lexeme sequences up to length 4 over 12 lexemes: '
                                             'reported names and created variables against the identifiers in variable position')
+
+
+MUSTACHE_TEST = r'''package mustache_test
+
+import (
+	"strings"
+	"testing"
+
+	"github.com/pip-services3-gox/pip-services3-expressions-gox/mustache"
+)
+
+// C03 / C10 / C19 (bounded): every sequence of up to @L@ template lexemes over the alphabet below. A reference
+// recogniser and renderer written from the statement decide which templates are well-formed and what they render
+// to under each variable map; SetTemplate must accept exactly the well-formed ones (an error, never a panic,
+// otherwise) and EvaluateWithVariables must return the reference rendering, twice, leaving the map unchanged.
+type node struct { kind byte; text string; name string; kids []*node }  // kind: t text, v variable, e escaped, c comment, s section, i inverted
+
+type lex struct { src string; kind byte; name string }  // kind as above, plus 'x' section end (name "" = anonymous), '?' malformed
+
+var alphabet = []lex{
+	{"x ", 't', ""}, {"\"q\" ", 't', ""}, {"{{a}}", 'v', "a"}, {"{{{B}}}", 'e', "B"}, {"{{ ! note }}", 'c', ""},
+	{"{{#a}}", 's', "a"}, {"{{/a}}", 'x', "a"}, {"{{^c}}", 'i', "c"}, {"{{/c}}", 'x', "c"},
+	{"{{#if D}}", 's', "D"}, {"{{/if}}", 'x', ""}, {"{{#unless a}}", 'i', "a"}, {"{{/unless}}", 'x', ""},
+	{"{{{#a}}}", 's', "a"}, {"{{/}}", '?', ""}, {"{{a}}}", '?', ""}, {"{{", '?', ""},
+}
+
+func parse(ls []lex, pos *int, open string, top bool) ([]*node, bool) {
+	var out []*node
+	for *pos < len(ls) {
+		l := ls[*pos]
+		*pos++
+		switch l.kind {
+		case '?': return nil, false
+		case 'x':
+			if top { return nil, false }
+			if l.name == open || l.name == "" { return out, true }
+			return nil, false
+		case 's', 'i':
+			kids, ok := parse(ls, pos, l.name, false)
+			if !ok { return nil, false }
+			out = append(out, &node{kind: l.kind, name: l.name, kids: kids})
+		default:
+			out = append(out, &node{kind: l.kind, text: l.src, name: l.name})
+		}
+	}
+	return out, top
+}
+
+func get(m map[string]string, name string) (string, bool) {
+	for k, v := range m { if strings.EqualFold(k, name) { return v, true } }
+	return "", false
+}
+
+func esc(s string) string {
+	r := strings.NewReplacer("\\", "\\\\", "\"", "\\\"", "/", "\\/", "\b", "\\b", "\f", "\\f", "\n", "\\n", "\r", "\\r", "\t", "\\t")
+	return r.Replace(s)
+}
+
+func render(ns []*node, m map[string]string) string {
+	var b strings.Builder
+	for _, n := range ns {
+		v, ok := get(m, n.name)
+		switch n.kind {
+		case 't': b.WriteString(n.text)
+		case 'v': if ok { b.WriteString(v) }
+		case 'e': if ok { b.WriteString(esc(v)) }
+		case 's': if ok && v != "" { b.WriteString(render(n.kids, m)) }
+		case 'i': if !(ok && v != "") { b.WriteString(render(n.kids, m)) }
+		}
+	}
+	return b.String()
+}
+
+func TestVerifReplay(t *testing.T) {
+	var cases [][]lex
+	var gen func(cur []lex, n int)
+	gen = func(cur []lex, n int) { if len(cur) > 0 { cases = append(cases, append([]lex{}, cur...)) }; if n == 0 { return }; for _, c := range alphabet { gen(append(cur, c), n-1) } }
+	gen(nil, @L@)
+	maps := []map[string]string{{}, {"a": "1", "b": "q\"/\\\n\t", "c": "", "d": "x"}, {"A": "v", "B": "", "C": "z"}}
+	bad, accepted := 0, 0
+	for _, ls := range cases {
+		var sb strings.Builder
+		for _, l := range ls { sb.WriteString(l.src) }
+		tpl := sb.String()
+		// the parser trims blanks at both ends of the template: so does the reference (on the last text lexeme)
+		ls2 := append([]lex{}, ls...)
+		if n := len(ls2); ls2[n-1].kind == 't' { ls2[n-1].src = strings.TrimRight(ls2[n-1].src, " ") }
+		pos := 0
+		tree, wellFormed := parse(ls2, &pos, "", true)
+		m := mustache.NewMustacheTemplate()
+		var err error
+		panicked := false
+		func() { defer func() { if r := recover(); r != nil { t.Errorf("%q: SetTemplate panicked: %v", tpl, r); bad++; panicked = true } }(); err = m.SetTemplate(tpl) }()
+		if panicked { continue }
+		if wellFormed && err != nil { t.Errorf("%q is well-formed but was rejected: %v", tpl, err); bad++; continue }
+		if !wellFormed && err == nil { t.Errorf("%q is malformed but was accepted", tpl); bad++; continue }
+		if err != nil { continue }
+		accepted++
+		for mi, vars := range maps {
+			before := len(vars)
+			want := render(tree, vars)
+			for rep := 0; rep < 2; rep++ {
+				var got string
+				var e2 error
+				func() { defer func() { if r := recover(); r != nil { t.Errorf("%q (map %d): rendering panicked: %v", tpl, mi, r); bad++; e2 = nil; got = want } }(); got, e2 = m.EvaluateWithVariables(vars) }()
+				if e2 != nil { t.Errorf("%q (map %d): rendering failed: %v", tpl, mi, e2); bad++; break }
+				if got != want { t.Errorf("%q (map %d, run %d) rendered %q, the reference renders %q", tpl, mi, rep, got, want); bad++; break }
+			}
+			if len(vars) != before { t.Errorf("%q: rendering changed the variable map", tpl); bad++ }
+		}
+		if bad > 8 { t.Fatalf("stopping after %d failures", bad) }
+	}
+	if accepted == 0 { t.Fatalf("vacuous: no template accepted") }
+}
+'''
+
+
+@family(r'/mustache[./]')
+class MustacheFamily(Family):
+    @classmethod
+    def source(cls, l=4):
+        return MUSTACHE_TEST.replace('@L@', str(l))
+
+    def test_source(self, vals):
+        return 'mustache', self.source()
+
+    @classmethod
+    def bounded_source(cls, prog, fname):
+        return 'mustache', cls.source(), ('all sequences of up to 4 template lexemes over a 17-lexeme alphabet (text, variables, escaped variables, comments, sections in '
+                                          'every spelling, section ends by name and anonymous, three malformed tags) x 3 variable maps, against a reference recogniser and renderer')
